@@ -349,8 +349,14 @@ def guard_exact(ctx: Ctx):
             for d in ast.walk(st):
                 if not (isinstance(d, ast.BinOp) and isinstance(d.op, ast.Div)):
                     continue
-                den = _strip_layout(_resolve_at(d.right, st, f.node, depth=1) if isinstance(_strip_layout(d.right), ast.Name) and _strip_layout(d.right).id not in norm_names else d.right)
-                den = _strip_layout(den)
+                den = _strip_layout(d.right)
+                for _ in range(4):  # through named temporaries, one definition at a time
+                    if not (isinstance(den, ast.Name) and den.id not in norm_names):
+                        break
+                    nxt = _strip_layout(_resolve_at(den, st, f.node, depth=1))
+                    if isinstance(nxt, ast.Name) and nxt.id == den.id:
+                        break
+                    den = nxt
                 if isinstance(den, ast.Name) and den.id in norm_names:
                     n += 1
                     res.instance("GUARD-EXACT", f"{f.name}: / {src(d.right)[:40]}", sample={"divisor": src(den), "guard": None, "ok": True})
